@@ -384,6 +384,11 @@ def check_seq(seq, stats):
                     laws_ = [l_ for l_ in labels_ if l_.startswith("law:")]
                     if laws_:
                         hits.append(hit("C06", seq, no, raw, f"Archetype::iter() / iter_mut() of archetype {op[1]}, driven through Iterator adapters, do not present every live entity exactly once with its own data (compared with a plain `for` pass over the same iterator): {', '.join(l_[4:] for l_ in laws_)}", "iter-adapter"))
+                    vlaws_ = [l_ for l_ in laws_ if l_.rsplit(".", 1)[-1] in ("last", "nth", "skip", "step_by")]
+                    if vlaws_:
+                        # C02 names Archetype::iter / iter_mut as read paths: an item reached through an adapter that
+                        # differs from the item of a plain pass pairs a handle with values that are not its own
+                        hits.append(hit("C02", seq, no, raw, f"Archetype::iter() / iter_mut() of archetype {op[1]}, driven through Iterator adapters, yield items (handle + component values) that differ from the items of a plain `for` pass over the same iterator — a handle paired with values that are not its own: {', '.join(l_[4:] for l_ in vlaws_)}", "iter-adapter-values"))
                     if pm.group(1) != "ok" and len(laws_) < len(labels_):
                         hits.append(hit("C02", seq, no, raw, f"the access paths of archetype {op[1]} disagree with each other: {pm.group(1)}", "paths-disagree"))
                         if "-len" in pm.group(1):
